@@ -49,6 +49,20 @@ Theorem C48_same_on_every_node :
 Proof. exact st_update_perm. Qed.
 Print Assumptions C48_same_on_every_node.
 
+(* a float chain global that update_globals accepts is finite: ConfigImpl.Update (currency.ParseZCN of the fees) never
+   sees NaN or an infinity *)
+Theorem C48_accepted_global_float_is_finite :
+  forall raw po v, st_parse true StFloat raw po = ROk v -> exists b, po_flt po = Some b /\ fl_finite b = true.
+Proof. exact st_global_float_finite. Qed.
+Print Assumptions C48_accepted_global_float_is_finite.
+
+(* every mutable chain global is read back by the chain (ConfigImpl.Update) with the type update_globals validated it
+   against: an accepted value always parses on read, so no node falls back to its local yaml *)
+Theorem C48_global_declared_type_is_consumer_type :
+  st_global_type_disagreements = [] /\ st_global_consumers_declared = true.
+Proof. exact st_globals_consumer_types. Qed.
+Print Assumptions C48_global_declared_type_is_consumer_type.
+
 (* 6. unparsable values are rejected, never fatal: no operation of any contract panics (for the chain globals
    because every type in the generated table is supported by StringToInterface) *)
 Theorem C48_no_panic : forall k env s o, snd (st_step k env s o) <> OutPanic.
